@@ -282,25 +282,27 @@ Proof.
   { vm_compute in Ectx. inversion Ectx; subst. vm_compute. reflexivity. }
   assert (Ht2 : trail_ok st ctx true [14;6;8] = true).
   { vm_compute in Ectx. inversion Ectx; subst. vm_compute. reflexivity. }
-  exists ctx, o1, o2. repeat split; try assumption.
-  - vm_compute in Ectx. inversion Ectx; subst. vm_compute in E1. inversion E1; subst. reflexivity.
-  - vm_compute in Ectx. inversion Ectx; subst. vm_compute in E2. inversion E2; subst. reflexivity.
-  - apply (C04_expand_sound_project_partial e0 [[10]; [2]; [2;4]] ctx [10] [] [12] _ o1
-             (proj1 C04_example_wf) (proj2 C04_example_wf) Hin Habs Hl1 Ht1 E1).
-  - apply (C04_expand_sound_project_partial e0 [[10]; [2]; [2;4]] ctx [10] [] [12] _ o1
-             (proj1 C04_example_wf) (proj2 C04_example_wf) Hin Habs Hl1 Ht1 E1).
-  - apply (C04_expand_sound_project_partial e0 [[10]; [2]; [2;4]] ctx [10] [] [14;6;8] _ o2
-             (proj1 C04_example_wf) (proj2 C04_example_wf) Hin Habs Hl2 Ht2 E2).
-  - apply (C04_expand_sound_project_partial e0 [[10]; [2]; [2;4]] ctx [10] [] [14;6;8] _ o2
-             (proj1 C04_example_wf) (proj2 C04_example_wf) Hin Habs Hl2 Ht2 E2).
+  assert (Hd1 : denotes o1 (VObj [2;4] [6])).
+  { apply (C04_expand_sound_project_partial e0 [[10]; [2]; [2;4]] ctx [10] [] [12] _ o1
+             (proj1 C04_example_wf) (proj2 C04_example_wf) Hin Habs Hl1 Ht1 E1). }
+  assert (Hd2 : denotes o2 (VObj [2;4] [6;8])).
+  { apply (C04_expand_sound_project_partial e0 [[10]; [2]; [2;4]] ctx [10] [] [14;6;8] _ o2
+             (proj1 C04_example_wf) (proj2 C04_example_wf) Hin Habs Hl2 Ht2 E2). }
+  exists ctx, o1, o2.
+  split; [exact Hin|]. split; [exact Habs|]. split; [exact Hl1|]. split; [exact Ht1|].
+  split; [exact E1|]. split; [exact (proj1 Hd1)|].
+  split; [exact Hl2|]. split; [exact Ht2|]. split; [exact E2|]. split; [exact (proj1 Hd2)|].
+  split; assumption.
 Qed.
 
-(* the positive "always resolves" theorems apply to the witness of the refuted one through the module alias:
-   cons could reach the moved class as `import pkg._impl as i; i.Foo` (alias left behind by reparent) *)
+(* ... while through a module alias the re-exported class of the refuted witness IS reached (alias left by reparent):
+     cons.py: from pkg._impl import Foo ; import pkg._impl as i           i=10      i.Foo resolves, Foo does not *)
+Definition w1b : project :=
+  [ mk [2] true (Some [4]) [SFrom 1 [3] [(4, None)]];
+    mk [2;3] false None [SClass 4 None []];
+    mk [6] false None [SFrom 0 [2;3] [(4, None)]; SImport [2;3] (Some 10)] ].
+
 Example C04_module_alias_after_reexport :
-  let st := final_state w1 [[6]; [2]; [2;3]] in
-  exists mo o, obj_for st [2;3] = Some mo /\ child st mo 4 = None /\
-               assoc 4 (o_amap mo) = Some [2;4] /\ obj_for st [2;4] = Some o /\ o_id o = [2;3;4].
-Proof.
-  intro st. eexists. eexists. repeat split; vm_compute; reflexivity.
-Qed.
+  option_map o_id (resolve_in (final_state w1b [[6]; [2]; [2;3]]) [6] [10; 4]) = Some [2;3;4] /\
+  resolve_in (final_state w1b [[6]; [2]; [2;3]]) [6] [4] = None.
+Proof. split; vm_compute; reflexivity. Qed.
